@@ -156,7 +156,7 @@ def task_splitting(ctx):
     """O2: every engine's one_step is O(1/2) B(1/2) A [force] B(1/2) O(1/2) with the same c1, c2."""
     import seqm.MolecularDynamics as M
 
-    engines = [("Molecular_Dynamics_Langevin", {}), ("XL_BOMD", {"xl_bomd_params": {"k": 3}}), ("KSA_XL_BOMD", {"xl_bomd_params": {"k": 3}})]
+    engines = [("Molecular_Dynamics_Langevin", {}), ("XL_BOMD", {"xl_bomd_params": {"k": 3}}), ("KSA_XL_BOMD", {"xl_bomd_params": {"k": 3}}), ("XL_ESMD", {"xl_bomd_params": {"k": 3}})]
     for cls, extra in engines:
         ctx.under_contract(MD + ":%s.one_step" % cls, stubs=["esdriver"])
 
@@ -170,7 +170,13 @@ def task_splitting(ctx):
                 P = st.symbolic((1, 1, 1), "P")
                 Pt = P.unsqueeze(0).expand((md.m, 1, 1, 1)).clone()
                 mol.dP2dt2 = st.zeros(1, 1, 1)
-                md.one_step(mol, 0, P, Pt)
+                if cls == "XL_ESMD":
+                    xi_ = st.symbolic((1, 1, 1, 1), "xiamp")
+                    xit = xi_.unsqueeze(0).expand((md.m, 1, 1, 1, 1)).clone()
+                    mol.dxi2dt2 = st.zeros(1, 1, 1, 1)
+                    md.one_step(mol, 0, P, Pt, xi_, xit)
+                else:
+                    md.one_step(mol, 0, P, Pt)
             return md, mol, syms, (x0, v0, a0), list(st.GHOST["rng_draws"])
 
         ex = ctx.explore(thunk, stubs=STUBS, name=cls + ".one_step")
@@ -190,7 +196,93 @@ def task_splitting(ctx):
                 ctx.prove_eq("%s.v'[%d]@p%d" % (cls, c, p.path_id), mol.velocities.a[0, 0, c], vs.a[0, 0, c], pc=p.pc)
                 ctx.prove_eq("%s.acc'[%d]@p%d" % (cls, c, p.path_id), mol.acc.a[0, 0, c], as_.a[0, 0, c], pc=p.pc)
     ctx.assume_note("A6: electronic-structure driver stubbed; force is an uninterpreted function of the coordinates")
-    ctx.undecided_clause("surface-hopping engine's _do_integrator_step (inherits _apply_langevin_thermostat; composition checked in C17 tasks only structurally)")
+
+
+def nad_nuclear_step(ctx, thermostat):
+    """The nuclear part of the surface-hopping engine's _do_integrator_step (real code; electronic-structure call, coupling,
+    crossing detection, electronic propagation and hop handling replaced by recorders): exactly velocity Verlet, with the
+    thermostat half-steps outside the two kicks when a damping time is set; the electronic update runs after the nuclear step."""
+    import seqm.MolecularDynamics as M
+    import seqm.NonadiabaticDynamics as N
+    import torch as rt
+
+    NADM = "seqm.NonadiabaticDynamics"
+    ctx.under_contract(NADM + ":NonadiabaticDynamicsBase._do_integrator_step", stubs=["_compute_electronic_structure", "compute_tdc_hamiltonian_fd", "_detect_crossings", "_propagate_electronic", "_after_electronic_update", "_copy_cache_entry"])
+    order = []
+    tag = "thermostat" if thermostat else "nve"
+
+    def es_stub(self, molecule, learned_parameters, **kw):
+        order.append("force")
+        molecule.force = _force_of(molecule.coordinates)
+        self._cache_new = {"energies": st.symbolic((1, 2), "en"), "cis_amp": None}
+        return self._cache_new["energies"]
+
+    def after_stub(self, molecule, excitation_energies=None, step=None):
+        order.append("electronic-update")
+        self.__dict__["_v_at_electronic_update"] = molecule.velocities.clone()
+
+    stubs = dict(STUBS)
+    stubs.update({NADM + ":NonadiabaticDynamicsBase._compute_electronic_structure": es_stub,
+                  NADM + ":compute_tdc_hamiltonian_fd": lambda self, molecule, cache_new, lp, v_old, a_old: st.symbolic((1, 2, 2), "tdc"),
+                  NADM + ":NonadiabaticDynamicsBase._detect_crossings": lambda self, co, cn: None,
+                  NADM + ":NonadiabaticDynamicsBase._propagate_electronic": lambda self, co, cn, substeps=None: order.append("propagate"),
+                  NADM + ":SurfaceHoppingDynamics._after_electronic_update": after_stub,
+                  NADM + ":NonadiabaticDynamicsBase._after_electronic_update": after_stub,
+                  NADM + ":NonadiabaticDynamicsBase._copy_cache_entry": staticmethod(lambda cache, key, value: cache.__setitem__(key, value))})
+
+    def thunk():
+        del order[:]
+        sh = object.__new__(N.SurfaceHoppingDynamics)
+        rt.nn.Module.__init__(sh)
+        dt = real("dt")
+        d = sh.__dict__
+        d.update(timestep=dt, step_offset=0, _tdc_method="hamiltonian_fd", _cache_old={"energies": st.symbolic((1, 2), "e0"), "nac_dot": st.symbolic((1, 2, 2), "d0")}, _cache_new=None,
+                 _cache_prev_cis_amp=False, _electronic_substeps=1, _h5_writer=None, _active_states=st.tensor([1]), _coords_prev=None, _mos_prev=None,
+                 post_hop_holdoff=st.zeros(1, dtype=st.int64), _trivial_crossing_mask=None)
+        mol = _mol(1)
+        syms = None
+        if thermostat:
+            c1 = real("c1")
+            c2 = st.symbolic((1, 1, 1), "c2")
+            d.update(damp=real("damp"), langevin_c1=c1, langevin_c2=c2)
+        else:
+            d.update(damp=None)
+        x0, v0, a0 = mol.coordinates.clone(), mol.velocities.clone(), mol.acc.clone()
+        st.GHOST["rng_draws"].clear()
+        sh._do_integrator_step(0, mol, {})
+        return sh, mol, (x0, v0, a0), list(st.GHOST["rng_draws"]), list(order)
+
+    ex = ctx.explore(thunk, stubs=stubs, name="NAD._do_integrator_step[%s]" % tag)
+    if not ex.paths:
+        ctx.error(tag + ".paths", "no path")
+    for p in ex.paths:
+        if p.raised is not None:
+            ctx.fail("%s.raises@p%d" % (tag, p.path_id), repr(p.raised) + p.notes.get("traceback", "")[-800:])
+            continue
+        sh, mol, (x0, v0, a0), draws, seq = p.value
+        ACC = Sym(E.const(E.frac_of_float(M.CONSTANTS.ACC_SCALE), E.R))
+        thermo = None
+        if thermostat:
+            if len(draws) != 2:
+                ctx.fail("%s.two-thermostat-half-steps@p%d" % (tag, p.path_id), "expected 2 random draws per step, got %r" % (draws,))
+                continue
+            xi = [st.T(np.array([real("%s_%d" % (dr[1], k)) for k in range(3)], dtype=object).reshape(1, 1, 3), st.float64, True) for dr in draws]
+            thermo = (sh.langevin_c1, sh.langevin_c2, xi[0], xi[1])
+        else:
+            ctx.prove("%s.no-random-draw-without-a-damping-time@p%d" % (tag, p.path_id), E.const(len(draws) == 0))
+        xs, vs, as_ = _spec_step(x0, v0, a0, real("dt"), mol.mass_inverse, ACC, thermo)
+        for c in range(3):
+            ctx.prove_eq("%s.x'[%d]@p%d" % (tag, c, p.path_id), mol.coordinates.a[0, 0, c], xs.a[0, 0, c], pc=p.pc)
+            ctx.prove_eq("%s.v'[%d]@p%d" % (tag, c, p.path_id), mol.velocities.a[0, 0, c], vs.a[0, 0, c], pc=p.pc)
+            ctx.prove_eq("%s.acc'[%d]@p%d" % (tag, c, p.path_id), mol.acc.a[0, 0, c], as_.a[0, 0, c], pc=p.pc)
+            ctx.prove_eq("%s.electronic-update-sees-the-completed-nuclear-step[%d]@p%d" % (tag, c, p.path_id), sh._v_at_electronic_update.a[0, 0, c], vs.a[0, 0, c], pc=p.pc)
+        ctx.prove("%s.one-force-evaluation-then-propagation-then-hop-handling@p%d" % (tag, p.path_id), E.const(seq == ["force", "propagate", "electronic-update"]))
+    ctx.assume_note("A6: force is an uninterpreted function of the coordinates; one trajectory, one atom; tdc method hamiltonian_fd")
+
+
+def task_nad_step(ctx):
+    """O2 for the surface-hopping engine (damping time set)."""
+    nad_nuclear_step(ctx, True)
 
 
 def task_units(ctx):
@@ -227,5 +319,5 @@ def task_units(ctx):
     ctx.canary("per-mille-misscaling-detected", S(abs(VS * VS * KES * TS * Fraction(1001, 1000) - 1)) <= S(tol))
 
 
-TASKS_QUICK = ["fluctuation_dissipation", "splitting", "units"]
+TASKS_QUICK = ["fluctuation_dissipation", "splitting", "nad_step", "units"]
 TASKS_THOROUGH = TASKS_QUICK
